@@ -140,9 +140,33 @@ def stage1(ctx):
     return n, snaps
 
 
+def stage_hand(ctx, snaps):
+    """hand-written IR through the real passes (c14_pass_handir); its snapshots join the stage-2 programs"""
+    from vlib import c14_pass_handir as HI
+    t0 = time.time()
+    progs, findings, stats = HI.run_all(ctx)
+    for f in findings:
+        name = f["program"].split(":", 1)[1]
+        base = {"program": f["program"], "ir_text": f["source"], "pipeline": f["pipeline"],
+                "call": "parse_venom(ir_text); run the named passes (pipeline 'full-O2' = python -m vyper.cli.venom_main)"}
+        if f["kind"] == "pass-exception":
+            ctx.violation("failing-input", f"the Venom passes ({f['pipeline']}) crash on valid hand-written IR {f['program']}: {f['error'][:160]}",
+                          dict(base, error=f["error"], trace=f["trace"], expected="the IR is compiled (it is valid SSA Venom)"),
+                          key=HI.KEYS.get(name) or f"C14:hand-exception:{name}")
+        else:
+            ctx.violation("failing-input", f"pass {f['pass']} leaves ill-formed IR ({f['check']}) on hand-written IR {f['program']}",
+                          dict(base, pass_name=f["pass"], check=f["check"], error=f["error"],
+                               expected="well-formed Venom IR after every pass"), key=f"C14:hand-wf:{f['pass']}:{f['check']}:{name}")
+    snaps.update(progs)
+    ctx.corr["pass_hand_ir"] = stats
+    ctx.log(f"pass hand IR: {stats} in {time.time() - t0:.0f}s")
+    return stats["wf_checks"]
+
+
 def part_passes(ctx):
     os.environ.setdefault("PYTHONWARNINGS", "ignore")
     n1, snaps = stage1(ctx)
+    n1 += stage_hand(ctx, snaps)
     n2 = 0
     try:
         from vlib import c14_pass_sem as SEM
